@@ -2,6 +2,7 @@ SPECIFICATION LiveSpec
 CONSTANTS
   RecordHist = FALSE
   FixF4 = FALSE
+  FixF36 = FALSE
   Users = {"u1", "u2", "u3"}
   Consumers = {"u3"}
   Actors = {"u3"}
